@@ -173,6 +173,13 @@ def gen_start(rng):
             argv += ["--bumped-branch", rng.choice(["main", "feature/x", "release/3"])]
         if rng.random() < 0.3:
             argv += ["--bumped-timestamp", str(rng.randrange(0, 4000000000))]
+        r2 = rng.random()
+        if r2 < 0.08 and "--distance" not in argv and "--dirty" not in argv and "--no-dirty" not in argv:
+            argv += ["--clean"]
+        elif r2 < 0.16 and "--dirty" not in argv:
+            argv += ["--no-bump-context"]
+        elif r2 < 0.2:
+            argv += ["--bump-context"]
         return argv, None
     schema = objgen.rand_schema(rng, ascii_only=True)
     v = objgen.rand_vars(rng, ascii_only=True, bound=2 ** 32)
@@ -233,6 +240,30 @@ def work(bins, seed, nstarts, per_start):
                         bad.append(("start-version-differs-from-tag", "--tag-version %s gives %s=%r, the tag denotes %r" % (
                             base_argv[base_argv.index("--tag-version") + 1], k, got_k, tv[k]), dict(argv=base_argv, stdin=stdin)))
                         break
+        # context flags arrive as documented
+        def _flagval(name):
+            return base_argv[base_argv.index(name) + 1] if name in base_argv else None
+        ctxbad = None
+        if "--no-bump-context" in base_argv:
+            if (vars0.get("distance"), vars0.get("dirty"), vars0.get("bumped_branch"), vars0.get("bumped_commit_hash"), vars0.get("bumped_timestamp")) != (0, False, None, None, None):
+                ctxbad = "--no-bump-context leaves distance=%r dirty=%r branch=%r hash=%r timestamp=%r" % (
+                    vars0.get("distance"), vars0.get("dirty"), vars0.get("bumped_branch"), vars0.get("bumped_commit_hash"), vars0.get("bumped_timestamp"))
+        elif stdin is None:
+            if "--clean" in base_argv and (vars0.get("distance"), vars0.get("dirty")) != (None, False):
+                ctxbad = "--clean gives distance=%r dirty=%r" % (vars0.get("distance"), vars0.get("dirty"))
+            if _flagval("--distance") is not None and vars0.get("distance") != int(_flagval("--distance")):
+                ctxbad = "--distance %s gives %r" % (_flagval("--distance"), vars0.get("distance"))
+            if "--dirty" in base_argv and (vars0.get("dirty") is not True or vars0.get("bumped_timestamp") != core.PINNED_NOW):
+                ctxbad = "--dirty gives dirty=%r bumped_timestamp=%r (pinned clock %d)" % (vars0.get("dirty"), vars0.get("bumped_timestamp"), core.PINNED_NOW)
+            if "--no-dirty" in base_argv and vars0.get("dirty") is not False:
+                ctxbad = "--no-dirty gives dirty=%r" % (vars0.get("dirty"),)
+            if _flagval("--bumped-branch") is not None and vars0.get("bumped_branch") != _flagval("--bumped-branch"):
+                ctxbad = "--bumped-branch %r gives %r" % (_flagval("--bumped-branch"), vars0.get("bumped_branch"))
+            if _flagval("--bumped-timestamp") is not None and "--dirty" not in base_argv and vars0.get("bumped_timestamp") != int(_flagval("--bumped-timestamp")):
+                ctxbad = "--bumped-timestamp %s gives %r" % (_flagval("--bumped-timestamp"), vars0.get("bumped_timestamp"))
+        if ctxbad:
+            bad.append(("context-override-not-applied", ctxbad, dict(argv=base_argv, stdin=stdin)))
+        st["context_checks"] = st.get("context_checks", 0) + 1
         if stdin is not None and "--tag-version" in base_argv:
             # metamorphic: the version fields must be those of the tag alone, whatever the stdin object carried
             i = base_argv.index("--tag-version")
